@@ -1,1 +1,78 @@
-//! placeholder
+//! Mock transport for `Server::process` / `Server::process_request` (both are generic over Read + Write).
+#![allow(dead_code)]
+use serde::{Deserialize, Serialize};
+use std::io::{Read, Write};
+
+#[derive(Clone, Debug, Serialize, Deserialize, PartialEq, Eq, Hash)]
+pub enum WriteScript {
+    /// every write accepts everything
+    Unlimited,
+    /// every write accepts at most k bytes (k >= 1)
+    Chunk(usize),
+    /// the i-th write accepts at most chunks[i] bytes (>= 1), afterwards unlimited
+    Chunks(Vec<usize>),
+    /// writes succeed until k bytes have been accepted in total, then return an error
+    ErrAfter(usize),
+    /// the first write returns Ok(0)
+    Zero,
+}
+
+#[derive(Clone, Debug, Serialize, Deserialize, PartialEq, Eq, Hash)]
+pub struct Transport {
+    pub write: WriteScript,
+    pub read_err: bool,
+    pub flush_err: bool,
+}
+
+impl Default for Transport {
+    fn default() -> Self { Transport { write: WriteScript::Unlimited, read_err: false, flush_err: false } }
+}
+
+pub struct Mock {
+    pub inp: Vec<u8>,
+    pub pos: usize,
+    pub out: Vec<u8>,
+    pub t: Transport,
+    pub write_calls: usize,
+    pub read_calls: usize,
+    pub flush_calls: usize,
+}
+
+impl Mock {
+    pub fn new(inp: Vec<u8>, t: Transport) -> Mock { Mock { inp, pos: 0, out: vec![], t, write_calls: 0, read_calls: 0, flush_calls: 0 } }
+}
+
+impl Read for Mock {
+    fn read(&mut self, buf: &mut [u8]) -> std::io::Result<usize> {
+        self.read_calls += 1;
+        if self.t.read_err { return Err(std::io::Error::new(std::io::ErrorKind::ConnectionReset, "injected read error")); }
+        let n = std::cmp::min(buf.len(), self.inp.len() - self.pos);
+        buf[..n].copy_from_slice(&self.inp[self.pos..self.pos + n]);
+        self.pos += n;
+        Ok(n)
+    }
+}
+
+impl Write for Mock {
+    fn write(&mut self, buf: &[u8]) -> std::io::Result<usize> {
+        let call = self.write_calls;
+        self.write_calls += 1;
+        let n = match &self.t.write {
+            WriteScript::Unlimited => buf.len(),
+            WriteScript::Chunk(k) => buf.len().min((*k).max(1)),
+            WriteScript::Chunks(v) => match v.get(call) { Some(k) => buf.len().min((*k).max(1)), None => buf.len() },
+            WriteScript::ErrAfter(k) => {
+                if self.out.len() >= *k { return Err(std::io::Error::new(std::io::ErrorKind::BrokenPipe, "injected write error")); }
+                buf.len().min(*k - self.out.len())
+            }
+            WriteScript::Zero => if call == 0 { 0 } else { buf.len() },
+        };
+        self.out.extend_from_slice(&buf[..n]);
+        Ok(n)
+    }
+    fn flush(&mut self) -> std::io::Result<()> {
+        self.flush_calls += 1;
+        if self.t.flush_err { return Err(std::io::Error::new(std::io::ErrorKind::BrokenPipe, "injected flush error")); }
+        Ok(())
+    }
+}
